@@ -85,7 +85,16 @@ def parseActivity (j : Json) : R Activity := do
   let time ← match j.getObjVal? "start", j.getObjVal? "end" with
     | .ok s, .ok e => do pure (some (← asInt s, ← asInt e))
     | _, _ => pure none
-  pure { jobId := ← strF j "jobId", type := ← strF j "type", tag := ← optStr j "tag", loc := ← optF asNat j "loc", time := time }
+  let leg (c : Json) (k : String) : R (Option CommuteLeg) :=
+    match c.getObjVal? k with
+    | .ok l => if l.isNull then pure none else do
+        pure (some { loc := ← natF l "loc", dist := ← intF l "dist", start := ← intF l "start", stop := ← intF l "end" })
+    | .error _ => pure none
+  let (fwd, bwd) ← match j.getObjVal? "commute" with
+    | .ok c => do pure (← leg c "fwd", ← leg c "bwd")
+    | .error _ => pure (none, none)
+  pure { jobId := ← strF j "jobId", type := ← strF j "type", tag := ← optStr j "tag", loc := ← optF asNat j "loc", time := time,
+         fwd := fwd, bwd := bwd }
 
 def parseStop (j : Json) : R Stop := do
   pure { loc := ← optF asNat j "loc", arrival := ← intF j "arrival", departure := ← intF j "departure",
